@@ -303,6 +303,7 @@ func (c *Cluster) Project() State {
 			s.Strat.CNoRestarts = durUnits(cn.NoRestartsDuration)
 			s.Strat.CMode = string(cn.ValidationMode)
 			s.Strat.CAntiAffinity = len(cn.NodeAntiAffinityKeys) > 0
+			s.Strat.CSelector = cn.NodeSelector != nil && cn.NodeSelector.MatchLabels[CanaryNodeLabel] == "yes"
 			if cn.AutoPause != nil {
 				s.Strat.APEnabled = cn.AutoPause.Enabled != nil && *cn.AutoPause.Enabled
 				if cn.AutoPause.MaxRestarts != nil {
